@@ -41,10 +41,13 @@ Opts == {[tau |-> PNone, limit |-> PNone], [tau |-> PInt("0"), limit |-> PNone],
 MCRateCalls(ms, h) ==
   {[m |-> m, teams |-> g, ranks |-> o, scores |-> PNone, tau |-> op.tau, limit |-> op.limit]
      : m \in 1..2, g \in Games2, o \in Outcomes(2), op \in Opts}
+  \cup {[m |-> 3, teams |-> PList(<<Single(1), Single(2)>>), ranks |-> o, scores |-> PNone, tau |-> PNone, limit |-> PNone]
+     : o \in IF Len(ms) >= 3 THEN {PNone, PList(<<PInt("0"), PInt("0")>>)} ELSE {}}
   \cup UNION {{[m |-> 1, teams |-> g, ranks |-> PNone, scores |-> o, tau |-> PNone, limit |-> PNone]
      : o \in Outcomes(Len(g.items))} : g \in Games3}
 MCPredictCalls(ms, h) ==
   {[m |-> m, op |-> op, teams |-> g] : m \in 1..2, op \in {"win", "draw", "rank"}, g \in {PList(<<Single(1), Single(2)>>)} \cup Games3}
+  \cup {[m |-> 3, op |-> op, teams |-> PList(<<Single(1), Single(2)>>)] : op \in IF Len(ms) >= 3 THEN {"win", "draw"} ELSE {}}
 MCObjectCalls(ms, h) ==
   {[op |-> "rating", m |-> 1, mu |-> mu, sigma |-> PNone, name |-> PNone] : mu \in {PNone, PInt("0"), PFloat("-3.5")}}
   \cup {[op |-> "create", m |-> 1, arg |-> PList(<<PFloat(h[r].mu), PFloat(h[r].sigma)>>), name |-> PNone] : r \in {x \in Own : x <= 2}}
@@ -58,6 +61,14 @@ MCObjectCalls(ms, h) ==
         [op |-> "setattr", m |-> 1, attr |-> "limit", value |-> "T"], [op |-> "setattr", m |-> 2, attr |-> "gamma", value |-> "default"],
         [op |-> "setattr", m |-> 1, attr |-> "gamma", value |-> "big"], [op |-> "setattr", m |-> 1, attr |-> "beta", value |-> "2.0"],
         [op |-> "setattr", m |-> 2, attr |-> "kappa", value |-> "0.001"]}
+  \* the program creates a third model object: all defaults; some arguments (ints and floats), the rest defaults; everything given
+  \cup (IF Len(ms) >= 3 THEN {} ELSE
+        {[op |-> "new_model", kind |-> Kind, args |-> a] :
+           a \in {NoArgs,
+                  [NoArgs EXCEPT !.mu = PInt("30"), !.tau = PInt("0")],
+                  [NoArgs EXCEPT !.beta = PFloat("2.5"), !.kappa = PFloat("0.001"), !.limit = PBool(TRUE), !.gamma = PStr("one")],
+                  [mu |-> PFloat("10.0"), sigma |-> PInt("2"), beta |-> PFloat("1.5"), kappa |-> PFloat("0.0005"), tau |-> PFloat("0.25"),
+                   limit |-> PBool(FALSE), gamma |-> PStr("big")]}})
 
 VARIABLE walk          \* index of the random walk (0 in exhaustive mode)
 
@@ -74,6 +85,7 @@ RandomStep ==
                                    [] d.op = "cmp"      -> Compare(d)
                                    [] d.op = "assign"   -> Assign(d)
                                    [] d.op = "setattr"  -> Reconfigure(d)
+                                   [] d.op = "new_model" -> NewModel(d)
 
 SInit == Init /\ hist = <<>> /\ walk \in (IF NWalks = 0 THEN {0} ELSE 1..NWalks)
 SNext == (IF NWalks = 0 THEN Next ELSE RandomStep) /\ hist' = Append(hist, DropX(last')) /\ UNCHANGED walk
